@@ -101,6 +101,9 @@ func hx(b []byte) string {
 	if len(b) <= 256 {
 		return hex.EncodeToString(b)
 	}
+	if o, ok := origin[&b[0]]; ok {
+		return o
+	}
 	return fmt.Sprintf("%s..(%d bytes, fnv=%016x)", hex.EncodeToString(b[:32]), len(b), evid.NewH().B(b).Sum())
 }
 
@@ -139,10 +142,21 @@ func rbytes(rt *rapid.T, label string, n int) []byte {
 			b[i] = byte(i)
 		}
 	default:
-		b = gen.Expand(uniform(rt, label), n)
+		seed := uniform(rt, label)
+		b = gen.Expand(seed, n)
+		if n > 256 {
+			if len(origin) > 64 {
+				clear(origin)
+			}
+			origin[&b[0]] = fmt.Sprintf("gen.Expand(%#x, %d)", seed, n)
+		}
 	}
 	return b
 }
+
+// origin remembers how the long byte strings of the current case were generated, so that a
+// failure message can state them completely (read only when a message is built).
+var origin = map[*byte]string{}
 
 var edge32 = []uint32{0, 1, 2, 3, 0xff, 0x100, 0xffff, 0x10000, 0xffffff, 0x1000000, 0x7fffffff, 0x80000000, 0xfffffffe, 0xffffffff}
 var edge64 = []uint64{0, 1, 0xff, 0xffffffff, 0x100000000, 0x3fffffffffffff, 0x40000000000000, 0xffffffffffffff, 0x7fffffffffffffff, 0x8000000000000000, 0xffffffffffffffff}
